@@ -24,11 +24,12 @@ import (
 )
 
 type server struct {
-	cmd   *exec.Cmd
-	port  int
-	base  string
-	logMu sync.Mutex
-	logs  []string
+	exited chan struct{} // closed when the process has ended (a zombie still answers signal 0)
+	cmd    *exec.Cmd
+	port   int
+	base   string
+	logMu  sync.Mutex
+	logs   []string
 }
 
 var portSeq int
@@ -40,7 +41,9 @@ func freePort() int {
 	sh, _ := strconv.Atoi(os.Getenv("VERIF_SHARD"))
 	for i := 0; i < 1500; i++ {
 		portSeq++
-		port := 21000 + (sh%16)*1500 + (os.Getpid()*7+portSeq)%1500
+		// spread by process id as well: several runs of this check may be under way at once
+		// (another tier, a sweep against a scratch copy) with the same shard numbers
+		port := 21000 + (os.Getpid()*131+sh*977+portSeq*17)%24000
 		l, err := net.Listen("tcp", fmt.Sprintf(":%d", port))
 		if err != nil {
 			continue
@@ -67,6 +70,8 @@ func startServer(args ...string) (*server, error) {
 		if err := s.cmd.Start(); err != nil {
 			return nil, err
 		}
+		s.exited = make(chan struct{})
+		go func(s *server) { s.cmd.Wait(); close(s.exited) }(s)
 		go func() {
 			sc := bufio.NewScanner(stdout)
 			sc.Buffer(make([]byte, 1<<20), 1<<20)
@@ -91,7 +96,9 @@ func startServer(args ...string) (*server, error) {
 			time.Sleep(10 * time.Millisecond)
 		}
 		if ok {
-			time.Sleep(5 * time.Millisecond)
+			// a server that lost the race for the port needs a moment to give up; the health
+			// probe may have been answered by somebody else's server on that port
+			time.Sleep(60 * time.Millisecond)
 			if s.alive() {
 				return s, nil
 			}
@@ -104,12 +111,19 @@ func startServer(args ...string) (*server, error) {
 func (s *server) stop() {
 	if s.cmd != nil && s.cmd.Process != nil {
 		s.cmd.Process.Kill()
-		s.cmd.Wait()
+		if s.exited != nil {
+			<-s.exited
+		}
 	}
 }
 
 func (s *server) alive() bool {
-	return s.cmd.Process.Signal(syscall.Signal(0)) == nil
+	select {
+	case <-s.exited:
+		return false
+	default:
+		return true
+	}
 }
 
 func (s *server) logText() string {
